@@ -1,8 +1,8 @@
 #!/bin/sh
 # runs the repository's pinned suite with the guard OFF and compares with BASELINE.json
 cd /repo || exit 2
-rm -f /verif/work/baseline.junit.xml
-cargo nextest run --workspace --no-fail-fast --tool-config-file pb:/w/lib/nextest.toml --profile pb --test-threads 8 --offline > /verif/work/baseline.log 2>&1
+rm -f /verif/target/baseline.junit.xml
+cargo nextest run --workspace --no-fail-fast --tool-config-file pb:/w/lib/nextest.toml --profile pb --test-threads 8 --offline > /verif/target/baseline.log 2>&1
 python3 - <<'PY'
 import json,glob,xml.etree.ElementTree as ET,sys
 b=json.load(open('/root/.vp/BASELINE.json'))
